@@ -243,6 +243,9 @@ func c04Scan(model gm.G, g geom.Geometry, lib, mixed []byte, cx *h.Ctx) *h.Failu
 		// row of a query), also when the next geometry has the same type
 		held := dst
 		for _, next := range []geom.Geometry{dirty(model.Norm().T), dirty(gm.GeometryCollection), g.Reverse()} {
+			if next.Validate() != nil {
+				continue // Scan validates; at subnormal magnitudes the reversal of a ring the library accepts can be rejected
+			}
 			if err := dst.Scan(next.AsBinary()); err != nil {
 				return h.Failf("wkb/scan-error", "Geometry.Scan of a second row fails: %v", err)
 			}
